@@ -498,3 +498,16 @@ Proof. intros OK H. pose proof (build_Built p ops s OK H) as B. pose proof (Buil
     - intros A d I. rewrite <- in_rev in I. apply expected_pushes in I as [[]|(op & I & P)]. destruct (bad_single d) eqn:Bs; [|reflexivity].
       rewrite forallb_forall in OK. rewrite <- (A op I). symmetry. apply (pushed_bad_iff p op (OK op I)). exists d; auto. }
   split; [reflexivity|]. split; [rewrite C1; exact X|]. intros A. apply C2. apply X. exact A. Qed.
+
+(* ------------------------------------------------------------------ the builder picks the shortest header *)
+Lemma valid_header_length h n : valid_header h n ->
+  (length h = 1%nat /\ n <= 75) \/ (length h = 2%nat /\ n < 256) \/ (length h = 3%nat /\ n < 65536) \/ (length h = 5%nat /\ n < 4294967296).
+Proof. intros [[-> H]|[[-> H]|[[-> H]|[-> H]]]]; cbn [length]; rewrite ?le_enc_length; auto 10. Qed.
+Theorem push_header_shortest n h : push_header n = Val h ->
+  valid_header h n /\ forall h', valid_header h' n -> (length h <= length h')%nat.
+Proof. intros E. destruct (push_header_valid n h E) as [V M]. split; [exact V|]. intros h' V'.
+  apply valid_header_length in V'. destruct V as [[-> H]|[[-> H]|[[-> H]|[-> H]]]]; cbn [hdr_minimal le_enc length] in *; lia. Qed.
+Lemma push_header_panic_iff n : (exists w, push_header n = Panic w) <-> 0x100000000 <= n.
+Proof. unfold push_header, OP_PUSHDATA1. destruct (N.ltb_spec n 76), (N.ltb_spec n 256), (N.ltb_spec n 65536), (N.ltb_spec n 4294967296);
+  split; intros X; try lia; try (destruct X as [w X]; discriminate X); eexists; reflexivity. Qed.
+
